@@ -235,6 +235,13 @@ func (sc *CrashScenario) crashHistory(hist []Op, c *Collector, seen map[[40]byte
 		d := img.Digest()
 		var key [40]byte
 		copy(key[:], d[:])
+		// At the last crash point the op in flight has returned: if it is a
+		// Flush or a Close+Open, what it acknowledged is the new durable floor.
+		flushed := flushed
+		if p == hi && torn < 0 && inFlight >= 0 && isFlushing(full[inFlight]) {
+			flushed = inFlight
+		}
+		info.flushed = flushed
 		// the verdict depends on the image and on the allowed sets
 		sig := fmt.Sprintf("%d/%d/%s", flushed, inFlight, sortedModel(models[len(models)-1]))
 		if flushed >= 0 {
